@@ -1,1 +1,428 @@
-pub fn cmd_record(_args: &[String]) { unimplemented!() }
+//! Direction B drivers: seeded random (rule, data) generators, one per property family, biased to that
+//! family's corner values and kept INSIDE the domain the property statements pin. The real interpreter is
+//! run on each pair and the call is recorded (AJ) for validation by TLC against the specification
+//! (spec/tv/TV_Call.tla).
+//!
+//! Discipline (no false alarms): a computed non-integral number has no text in the specification, so an
+//! arithmetic expression is never placed where it would be stringified (cat, ==/< against non-numbers,
+//! in, var keys, substr); strings never contain the white-space code points on which Rust and ECMAScript
+//! differ by definition; keys are strings, integers or null.
+
+use crate::rng::Rng;
+use crate::{aj, run};
+use serde_json::{json, Map, Number, Value};
+use std::fs::File;
+use std::io::{BufWriter, Write};
+
+fn die(msg: &str) -> ! {
+    eprintln!("TOOL-ERROR: {}", msg);
+    std::process::exit(2);
+}
+
+const INTS: &[i64] = &[0, 1, -1, 2, 3, 7, 10, 16, 255, -2, 100, 4294967296, 9007199254740991, 9007199254740992, 9007199254740993, -9007199254740993,
+    9223372036854775807, -9223372036854775808, -9223372036854775807, 2147483647, -2147483648];
+const STRS: &[&str] = &["", "a", "b", "ab", "abc", "A", "é", "😀", "héllo", "a.b", "0", "1", "-1", "1.5", " 1 ", "1e2", "0x10", "0b11", "12px", "1-2", ".5", "5.", "Infinity", "-Infinity",
+    "inf", "nan", "NaN", "1e400", "true", "null", "[object Object]", "1,2", " ", "\t7\n", "+3", "--1", "9007199254740993", "1e-7", "x", "日本"];
+const KEYS: &[&str] = &["a", "b", "c", "xs", "s", "n", "o", "0", "1", "é", "a.b", "var", "log"];
+
+fn gen_int(r: &mut Rng) -> Value {
+    match r.below(10) {
+        0 => json!(18446744073709551615u64),
+        1 => json!(9223372036854775808u64),
+        2 => json!((r.next() % 1000) as i64 - 500),
+        _ => json!(*r.pick(INTS)),
+    }
+}
+
+fn gen_float(r: &mut Rng) -> f64 {
+    match r.below(8) {
+        0 => *r.pick(&[0.5, 1.5, -2.5, 0.1, 0.2, 1e21, 1e-7, 1e300, -1e300, 5e-324, 1.7976931348623157e308, 2.2250738585072014e-308, -0.0, 1e19, 1e20, 4503599627370497.5]),
+        1 => {
+            // random bit pattern with a moderate exponent
+            let m = r.next() & ((1u64 << 52) - 1);
+            let e = 1023 - 60 + (r.next() % 120);
+            let s = r.next() & 1;
+            f64::from_bits((s << 63) | (e << 52) | m)
+        }
+        2 => {
+            // any finite double
+            loop {
+                let f = f64::from_bits(r.next());
+                if f.is_finite() {
+                    return f;
+                }
+            }
+        }
+        _ => ((r.next() % 2001) as f64 - 1000.0) / *r.pick(&[1.0, 2.0, 4.0, 8.0, 10.0, 3.0]),
+    }
+}
+
+fn gen_num_lit(r: &mut Rng) -> Value {
+    if r.chance(1, 2) {
+        gen_int(r)
+    } else {
+        Value::Number(Number::from_f64(gen_float(r)).unwrap())
+    }
+}
+
+fn gen_str(r: &mut Rng) -> String {
+    if r.chance(3, 4) {
+        r.pick(STRS).to_string()
+    } else {
+        let n = r.below(5);
+        (0..n).map(|_| *r.pick(&['a', 'b', 'é', '€', '😀', '1', '.', ' ', 'x'])).collect()
+    }
+}
+
+fn gen_value(r: &mut Rng, depth: usize) -> Value {
+    match r.below(if depth == 0 { 5 } else { 8 }) {
+        0 => Value::Null,
+        1 => json!(r.chance(1, 2)),
+        2 => gen_int(r),
+        3 => Value::Number(Number::from_f64(gen_float(r)).unwrap()),
+        4 => json!(gen_str(r)),
+        5 | 6 => Value::Array((0..r.below(4)).map(|_| gen_value(r, depth - 1)).collect()),
+        _ => {
+            let mut m = Map::new();
+            for _ in 0..r.below(4) {
+                m.insert(r.pick(KEYS).to_string(), gen_value(r, depth - 1));
+            }
+            Value::Object(m)
+        }
+    }
+}
+
+/// The data every generated rule runs against: a fixed schema with random contents, plus rule-shaped markers.
+fn gen_data(r: &mut Rng) -> Value {
+    if r.chance(1, 12) {
+        return gen_value(r, 2);
+    }
+    json!({
+        "n": gen_num_lit(r), "i": gen_int(r), "s": gen_str(r), "b": r.chance(1, 2), "z": null,
+        "xs": (0..r.below(5)).map(|_| gen_int(r)).collect::<Vec<_>>(),
+        "fs": (0..r.below(4)).map(|_| gen_num_lit(r)).collect::<Vec<_>>(),
+        "ss": (0..r.below(4)).map(|_| json!(gen_str(r))).collect::<Vec<_>>(),
+        "vs": (0..r.below(4)).map(|_| gen_value(r, 1)).collect::<Vec<_>>(),
+        "o": {"a": gen_value(r, 1), "b": {"c": [gen_int(r), gen_str(r)]}, "a.b": gen_int(r)},
+        "m": [{"var": "i"}, {"log": "LEAK"}, {"+": ["x"]}],
+        "k": *r.pick(&["i", "s", "o.a", "xs.0", "nope"]),
+    })
+}
+
+fn var(path: &str) -> Value {
+    json!({ "var": path })
+}
+
+// ---- typed expression generators -------------------------------------------------------------------
+/// a number-valued (or erroring) expression; may produce non-integral results: never stringify it
+fn num_expr(r: &mut Rng, d: usize) -> Value {
+    if d == 0 || r.chance(1, 3) {
+        return match r.below(6) {
+            0 => var("n"),
+            1 => var("i"),
+            2 => var("xs.0"),
+            3 => json!(gen_str(r)),        // strings convert (or fail to) - part of the arithmetic statement
+            4 => gen_value(r, 1),          // arrays / null / bool / objects convert too
+            _ => gen_num_lit(r),
+        };
+    }
+    let n = 1 + r.below(3);
+    let ops = |r: &mut Rng, n: usize| (0..n).map(|_| num_expr(r, d - 1)).collect::<Vec<_>>();
+    match r.below(10) {
+        0 | 1 => {
+            let k = r.below(4);
+            json!({"+": ops(r, k)})
+        }
+        2 => json!({"*": ops(r, n)}),
+        3 => {
+            let k = 1 + r.below(2);
+            json!({"-": ops(r, k)})
+        }
+        4 => json!({"/": ops(r, 2)}),
+        5 => json!({"%": ops(r, 2)}),
+        6 => json!({"max": ops(r, n)}),
+        7 => json!({"min": ops(r, n)}),
+        8 => json!({"if": [bool_expr(r, d - 1), num_expr(r, d - 1), num_expr(r, d - 1)]}),
+        _ => json!({"reduce": [var("xs"), {"+": [{"var": "current"}, {"var": "accumulator"}]}, num_expr(r, d - 1)]}),
+    }
+}
+
+/// an expression whose value has a known text (never a computed non-integral number)
+fn plain_expr(r: &mut Rng, d: usize) -> Value {
+    if d == 0 || r.chance(1, 3) {
+        return match r.below(9) {
+            0 => var("s"),
+            1 => var("i"),
+            2 => var("xs"),
+            3 => var("o.a"),
+            4 => var("ss.0"),
+            5 => var("z"),
+            6 => var("vs"),
+            7 => var("b"),
+            _ => gen_value(r, 1),
+        };
+    }
+    match r.below(12) {
+        0 => json!({"cat": (0..r.below(4)).map(|_| plain_expr(r, d - 1)).collect::<Vec<_>>()}),
+        1 => json!({"substr": [str_expr(r, d - 1), small_int(r), small_int(r)]}),
+        2 => json!({"substr": [str_expr(r, d - 1), small_int(r)]}),
+        3 => json!({"merge": (0..r.below(4)).map(|_| plain_expr(r, d - 1)).collect::<Vec<_>>()}),
+        4 => json!({"if": [bool_expr(r, d - 1), plain_expr(r, d - 1), plain_expr(r, d - 1)]}),
+        5 => json!({"and": [plain_expr(r, d - 1), plain_expr(r, d - 1)]}),
+        6 => json!({"or": [plain_expr(r, d - 1), plain_expr(r, d - 1)]}),
+        7 => json!({"map": [arr_expr(r, d - 1), plain_expr(r, d - 1)]}),
+        8 => json!({"filter": [arr_expr(r, d - 1), bool_expr(r, d - 1)]}),
+        9 => json!({"var": [*r.pick(&["nope", "o.zz", "xs.9", "s", "z"]), plain_expr(r, d - 1)]}),
+        10 => json!({"log": plain_expr(r, d - 1)}),
+        _ => bool_expr(r, d - 1),
+    }
+}
+
+fn small_int(r: &mut Rng) -> Value {
+    match r.below(8) {
+        0 => json!(i64::MIN),
+        1 => json!(i64::MAX),
+        _ => json!(r.below(13) as i64 - 6),
+    }
+}
+
+fn str_expr(r: &mut Rng, d: usize) -> Value {
+    if d == 0 || r.chance(1, 2) {
+        return match r.below(3) {
+            0 => var("s"),
+            1 => var("ss.0"),
+            _ => json!(gen_str(r)),
+        };
+    }
+    match r.below(3) {
+        0 => json!({"cat": [str_expr(r, d - 1), str_expr(r, d - 1)]}),
+        1 => json!({"substr": [str_expr(r, d - 1), small_int(r)]}),
+        _ => json!({"if": [bool_expr(r, d - 1), str_expr(r, d - 1), str_expr(r, d - 1)]}),
+    }
+}
+
+fn arr_expr(r: &mut Rng, d: usize) -> Value {
+    match r.below(8) {
+        0 => var("xs"),
+        1 => var("ss"),
+        2 => var("vs"),
+        3 => var("m"),
+        4 => Value::Array((0..r.below(4)).map(|_| gen_value(r, 1)).collect()),
+        5 if d > 0 => json!({"merge": [arr_expr(r, d - 1), arr_expr(r, d - 1)]}),
+        6 if d > 0 => json!({"filter": [arr_expr(r, d - 1), bool_expr(r, d - 1)]}),
+        6 => var("nope"),
+        _ => var("fs"),
+    }
+}
+
+fn bool_expr(r: &mut Rng, d: usize) -> Value {
+    if d == 0 {
+        return match r.below(4) {
+            0 => var("b"),
+            1 => json!({"!": [var("s")]}),
+            2 => json!(r.chance(1, 2)),
+            _ => json!({"!!": [var("xs")]}),
+        };
+    }
+    let rel = *r.pick(&["<", "<=", ">", ">=", "==", "!=", "===", "!=="]);
+    match r.below(12) {
+        // numeric against numeric: arithmetic allowed on both sides
+        0 | 1 => json!({rel: [num_side(r, d - 1), num_side(r, d - 1)]}),
+        // any plain values against each other
+        2 | 3 => json!({rel: [plain_expr(r, d - 1), plain_expr(r, d - 1)]}),
+        4 => json!({*r.pick(&["<", "<=", ">", ">="]): [plain_expr(r, d - 1), plain_expr(r, d - 1), plain_expr(r, d - 1)]}),
+        5 => json!({"!": [any_expr(r, d - 1)]}),
+        6 => json!({"!!": [any_expr(r, d - 1)]}),
+        7 => json!({"in": [plain_expr(r, d - 1), if r.chance(1, 2) { arr_expr(r, d - 1) } else { str_expr(r, d - 1) }]}),
+        8 => json!({*r.pick(&["all", "some", "none"]): [quant_coll(r, d - 1), bool_expr(r, d - 1)]}),
+        9 => json!({"and": [bool_expr(r, d - 1), bool_expr(r, d - 1)]}),
+        10 => json!({"or": [bool_expr(r, d - 1), bool_expr(r, d - 1)]}),
+        _ => json!({"missing_some": [r.below(3), [*r.pick(KEYS), *r.pick(KEYS), "o.a", "nope"]]}),
+    }
+}
+
+/// a side of a comparison that is a number (literal, numeric data, or arithmetic): never a string, so it is
+/// compared numerically and never stringified
+fn num_side(r: &mut Rng, d: usize) -> Value {
+    match r.below(4) {
+        0 => gen_num_lit(r),
+        1 => var("i"),
+        2 if d > 0 => {
+            // arithmetic over NUMBERS only (a string operand could make the other side's text matter)
+            let a = gen_num_lit(r);
+            let b = gen_num_lit(r);
+            json!({*r.pick(&["+", "-", "*", "/", "%", "min", "max"]): [a, b]})
+        }
+        _ => gen_num_lit(r),
+    }
+}
+
+fn quant_coll(r: &mut Rng, d: usize) -> Value {
+    match r.below(5) {
+        0 => json!(gen_str(r)),
+        1 => Value::Array((0..r.below(4)).map(|_| plain_expr(r, d.min(1))).collect()),
+        2 => var("s"),
+        _ => arr_expr(r, d),
+    }
+}
+
+fn any_expr(r: &mut Rng, d: usize) -> Value {
+    match r.below(4) {
+        0 => num_expr(r, d),
+        1 => bool_expr(r, d),
+        _ => plain_expr(r, d),
+    }
+}
+
+/// control flow over probes: truthiness tests and results may be anything (incl. arithmetic: only tested / returned)
+fn ctl_expr(r: &mut Rng, d: usize) -> Value {
+    let op = *r.pick(&["if", "?:", "and", "or"]);
+    let n = r.below(6);
+    let items: Vec<Value> = (0..n)
+        .map(|i| match r.below(7) {
+            0 => json!({"log": format!("P{}", i)}),
+            1 => json!({"log": *r.pick(&[json!(0), json!(""), json!([]), json!(false), json!(null)])}),
+            2 => json!({"+": ["x"]}),
+            3 => json!({"==": [1]}),
+            4 if d > 0 => ctl_expr(r, d - 1),
+            5 => any_expr(r, d.min(1)),
+            _ => gen_value(r, 1),
+        })
+        .collect();
+    if (op == "and" || op == "or") && items.is_empty() {
+        return json!({op: [gen_value(r, 1)]});
+    }
+    json!({op: items})
+}
+
+/// var / missing / missing_some over paths that exist in the data, perturbed
+fn data_expr(r: &mut Rng) -> Value {
+    let paths = ["n", "i", "s", "xs", "xs.0", "xs.-1", "xs.1", "xs.7", "ss.0", "ss.-1", "o", "o.a", "o.b.c.0", "o.b.c.1", "o.b.c.-1", "o.b.c.1.0", "o.a\\.b", "o.a.b", "s.0", "s.-1", "s.2",
+        "z", "z.a", "b", "nope", "o.nope", "k", "m.0.var", "m.1.log", "vs.0", "vs.1.a", "fs.0", ""];
+    let key = |r: &mut Rng| -> Value {
+        match r.below(8) {
+            0 => json!(r.below(7) as i64 - 3),
+            1 => Value::Null,
+            2 => json!({"var": "k"}),
+            3 => gen_int(r),
+            _ => json!(*r.pick(&paths)),
+        }
+    };
+    match r.below(8) {
+        0 => json!({"var": [key(r)]}),
+        1 => json!({"var": [key(r), plain_expr(r, 1)]}),
+        2 => json!({ "var": key(r) }),
+        3 => json!({"missing": (0..r.below(5)).map(|_| key(r)).collect::<Vec<_>>()}),
+        4 => json!({"missing": [(0..r.below(4)).map(|_| key(r)).collect::<Vec<_>>()]}),
+        5 => json!({"missing_some": [r.below(4), (0..r.below(5)).map(|_| key(r)).collect::<Vec<_>>()]}),
+        6 => json!({"missing": {"merge": [[key(r)], [key(r), key(r)]]}}),
+        _ => json!({"if": [{"missing": [key(r)]}, "absent", {"var": [key(r)]}]}),
+    }
+}
+
+fn arr_family(r: &mut Rng, d: usize) -> Value {
+    match r.below(10) {
+        0 => json!({"map": [arr_expr(r, d), any_expr(r, d)]}),
+        1 => json!({"filter": [arr_expr(r, d), any_expr(r, d)]}),
+        2 => json!({"reduce": [arr_expr(r, d), {"merge": [{"var": "accumulator"}, {"var": "current"}]}, []]}),
+        3 => json!({"reduce": [var("xs"), {"+": [{"var": "current"}, {"var": "accumulator"}]}, gen_int(r)]}),
+        4 => json!({"reduce": [var("ss"), {"cat": [{"var": "accumulator"}, {"var": "current"}]}, ""]}),
+        5 | 6 => json!({*r.pick(&["all", "some", "none"]): [quant_coll(r, d), any_expr(r, d)]}),
+        7 => json!({"merge": (0..r.below(4)).map(|_| plain_expr(r, d)).collect::<Vec<_>>()}),
+        8 => json!({"in": [plain_expr(r, d), arr_expr(r, d)]}),
+        _ => json!({"in": [str_expr(r, d), str_expr(r, d)]}),
+    }
+}
+
+fn gen_rule(r: &mut Rng, family: &str) -> Value {
+    let d = 1 + r.below(3);
+    match family {
+        "arith" => num_expr(r, d.max(1)),
+        f if f.starts_with("rel") => {
+            let ops: Vec<&str> = match f {
+                "rel07" => vec!["==", "!="],
+                "rel08" => vec!["===", "!=="],
+                "rel09" => vec!["<", "<=", ">", ">="],
+                _ => vec!["==", "!=", "===", "!==", "<", "<=", ">", ">="],
+            };
+            let op = *r.pick(&ops);
+            if f == "rel09" && r.chance(1, 4) {
+                json!({op: [plain_or_lit(r), plain_or_lit(r), plain_or_lit(r)]})
+            } else {
+                json!({op: [plain_or_lit(r), plain_or_lit(r)]})
+            }
+        }
+        "ctl" => ctl_expr(r, 2),
+        "data" | "data11" | "data12" => {
+            if family == "data11" {
+                let k = data_expr(r);
+                // keep var forms
+                if k.get("var").is_some() { k } else { json!({"var": ["o.b.c.0", k]}) }
+            } else if family == "data12" {
+                loop {
+                    let k = data_expr(r);
+                    if k.get("var").is_none() { break k; }
+                }
+            } else { data_expr(r) }
+        }
+        "arr" => arr_family(r, d.min(2)),
+        "str" => {
+            if r.chance(1, 2) {
+                json!({"cat": (0..r.below(5)).map(|_| plain_expr(r, 1)).collect::<Vec<_>>()})
+            } else if r.chance(1, 2) {
+                json!({"substr": [str_expr(r, 1), small_int(r), small_int(r)]})
+            } else {
+                json!({"substr": [str_expr(r, 1), small_int(r)]})
+            }
+        }
+        _ => match r.below(7) {
+            0 => num_expr(r, d),
+            1 => ctl_expr(r, 2),
+            2 => data_expr(r),
+            3 => arr_family(r, d.min(2)),
+            4 => bool_expr(r, d),
+            _ => plain_expr(r, d),
+        },
+    }
+}
+
+fn plain_or_lit(r: &mut Rng) -> Value {
+    if r.chance(1, 2) {
+        gen_value(r, 2)
+    } else {
+        plain_expr(r, 1)
+    }
+}
+
+/// record <family> <n> <seed> <out.ndjson>
+pub fn cmd_record(args: &[String]) {
+    if args.len() < 4 {
+        die("usage: record <family> <n> <seed> <out.ndjson>");
+    }
+    let family = args[0].as_str();
+    let n: usize = args[1].parse().unwrap();
+    let seed: u64 = args[2].parse().unwrap();
+    let mut out = BufWriter::new(File::create(&args[3]).unwrap());
+    run::silence_panics();
+    let mut r = Rng::new(seed.wrapping_mul(0x9E37).wrapping_add(family.len() as u64 * 7919 + family.bytes().map(|b| b as u64).sum::<u64>()));
+    let mut seen = std::collections::HashSet::new();
+    let mut written = 0usize;
+    let mut tries = 0usize;
+    while written < n && tries < n * 20 {
+        tries += 1;
+        let rule = gen_rule(&mut r, family);
+        let data = gen_data(&mut r);
+        let key = format!("{}\u{0}{}", rule, data);
+        if !seen.insert(key) {
+            continue;
+        }
+        // keep the wire lines small enough for atomic appends / TLC's reader
+        if rule.to_string().len() > 1500 || data.to_string().len() > 1500 {
+            continue;
+        }
+        let o = run::run_apply(&rule, &data);
+        writeln!(out, "{}", json!({"rule": aj::to_aj(&rule), "data": aj::to_aj(&data), "out": run::outcome_aj(&o),
+            "plain": {"rule": rule.to_string(), "data": data.to_string(), "out": run::outcome_plain(&o)}})).unwrap();
+        written += 1;
+    }
+}
